@@ -86,6 +86,41 @@ def main():
         rc, io = run_impl(b, wd, 999999, src)
         return io != norm_model(m[1])
 
+    # ---- fixed shapes outside the tree grammar (compared with gcc only): a directive on the line after an #include of a file that does not end
+    #      in a newline; macros that name themselves (directly or through a cycle) inside #if / #elif: what is left of them counts as 0
+    open(os.path.join(wd, 'nonl.h'), 'w').write('int from_nonl;')
+    open(os.path.join(wd, 'nonl2.h'), 'w').write('#define FROM_NONL2 1')
+    open(os.path.join(wd, 'withnl.h'), 'w').write('int from_withnl;\n')
+    SHAPES = []
+    for inc in ('nonl.h', 'nonl2.h', 'withnl.h'):
+        for nxt in ('#else\nint wrong_else;', '#elif 1\nint wrong_elif;', '#elif 0\nint wrong_elif0;\n#else\nint wrong_else2;'):
+            SHAPES.append(('include-then-directive', '#if 1\n#include "%s"\n%s\n#endif\nint m_1;\n' % (inc, nxt)))
+        SHAPES.append(('include-then-directive', '#include "%s"\n#if 0\nint wrong_if0;\n#endif\nint m_2;\n' % inc))
+        SHAPES.append(('include-then-directive', '#if 0\n#else\n#include "%s"\n#endif\n#if 0\nint wrong_after;\n#else\nint m_3;\n#endif\n' % inc))
+        SHAPES.append(('include-then-directive', '#ifdef NOPE\n#include "%s"\n#elif 1\n#include "%s"\n#elif 1\nint wrong_second;\n#endif\nint m_4;\n' % (inc, inc)))
+    for defs, conds in [('#define FOO FOO\n', ['FOO == 0', '!FOO', 'FOO + 1', 'defined(FOO) && !FOO', 'FOO', 'FOO == 1']),
+                        ('#define A B\n#define B A\n', ['!A', 'B + 1', 'A == B', 'A', 'A || 1', 'defined(A) && B == 0']),
+                        ('#define X (X + 1)\n', ['X', 'X == 1', 'X - 1']), ('#define F(x) F(x)\n', ['F == 0', 'defined(F)'])]:
+        for c_ in conds:
+            SHAPES.append(('self-naming-macro', '%s#if %s\nint m_1;\n#else\nint m_2;\n#endif\n#if 0\n#elif %s\nint m_3;\n#else\nint m_4;\n#endif\n' % (defs, c_, c_)))
+    ids = lambda text: re.findall(r'\b(m_\d+|from_\w+|wrong_\w+)\b', text)
+    for n_, (fam, text) in enumerate(SHAPES):
+        path = os.path.join(wd, 'shape%d.h' % n_)
+        open(path, 'w').write(text)
+        g_ = subprocess.run(['gcc', '-E', '-P', '-x', 'c++', '-std=c++23', '-I', wd, path], stdout=subprocess.PIPE, stderr=subprocess.PIPE, text=True, timeout=60, cwd=wd)
+        ck.count()
+        ck.dist('shape:' + fam)
+        if g_.returncode != 0:
+            ck.dist('shape:rejected-by-gcc')
+            continue
+        p_ = subprocess.run([b['parse_file'], '-E', '-I', wd, '-S', wd, path], stdout=subprocess.PIPE, stderr=subprocess.PIPE, text=True, timeout=60, cwd=wd)
+        if ids(p_.stdout) != ids(g_.stdout):
+            ck.spec_failure('shape:' + fam, 'kept declarations %s, a conforming preprocessor keeps %s' % (ids(p_.stdout), ids(g_.stdout)),
+                            {'kind': 'spec', 'files': {'c.h': text, 'nonl.h': 'int from_nonl; (no newline at the end)', 'nonl2.h': '#define FROM_NONL2 1 (no newline at the end)'},
+                             'cmd': 'parse_file -E c.h   vs   gcc -E -P -x c++ -std=c++23 c.h', 'stderr_tail': p_.stderr[-600:]})
+        else:
+            ck.nontrivial(('shape', text))
+
     n_def = 0
     for k, ((kind, g), src, m, (rc, io), go) in enumerate(zip(cases, srcs, model, impl, gcc)):
         ck.count()
